@@ -314,3 +314,64 @@ Proof.
   right. exists i, h, ps. repeat (split; [assumption|]). reflexivity.
 Qed.
 Print Assumptions prefix_flat.
+
+(* ================= inadmissible wire types ================= *)
+Lemma read_int_body_inadm bits ty r : adm_int bits ty = false -> read_int_body bits ty r = None.
+Proof.
+  unfold adm_int, read_int_body. intros H.
+  destruct (ty =? tZERO); [discriminate|]. destruct (ty =? tBYTE); [discriminate|]. cbn [orb] in H.
+  destruct ((ty =? tSHORT) && (16 <=? bits)%Z); [discriminate|].
+  destruct ((ty =? tINT) && (32 <=? bits)%Z); [discriminate|].
+  destruct ((ty =? tLONG) && (64 <=? bits)%Z); [discriminate|]. reflexivity.
+Qed.
+
+(* a present member (behind any unknown fields) whose wire type the reader of its IDL type does not admit *)
+Theorem inadmissible_member e f tag req t prior lo J ty r :
+  junk_ok lo tag J -> ty < 16 -> tag < 256 -> (ty =? tSE) = false -> adm t ty = false ->
+  (2 * length (ser_fields J ++ head ty tag ++ r) + 3 <= f)%nat ->
+  dec_var (S f) e tag req t prior (ser_fields J ++ head ty tag ++ r) = DErr.
+Proof.
+  intros HJ Hty Htag Hse Hadm Hf.
+  assert (Hs : skip_to_no_check f tag req (ser_fields J ++ head ty tag ++ r) = Found ty r).
+  { rewrite (seek_junk J f lo) by assumption. destruct (fuel_sub J (head ty tag ++ r) f Hf) as (f' & -> & _).
+    now apply seek_first. }
+  destruct t; cbn [adm] in Hadm;
+    try (rewrite dec_var_scalar by reflexivity;
+         unfold dec_scalar, r_bool, r_int8, r_uint8, r_int16, r_uint16, r_int32, r_uint32, r_int64, r_int, r_f32, r_f64, r_string, with_seek;
+         rewrite Hs; try (rewrite read_int_body_inadm by assumption; reflexivity)).
+  - unfold read_f32_body. apply orb_false_iff in Hadm. destruct Hadm as [-> ->]. reflexivity.
+  - unfold read_f64_body. apply orb_false_iff in Hadm. destruct Hadm as [Hadm ->]. apply orb_false_iff in Hadm. destruct Hadm as [-> ->]. reflexivity.
+  - unfold read_string_body. apply orb_false_iff in Hadm. destruct Hadm as [-> ->]. reflexivity.
+  - rewrite dec_var_vec, Hs. apply orb_false_iff in Hadm. destruct Hadm as [-> Hadm].
+    destruct (ty =? tSIMPLE); [|reflexivity]. cbn [andb] in Hadm. now rewrite Hadm.
+  - rewrite dec_var_map. unfold skip_to. now rewrite Hs, Hadm.
+  - rewrite dec_var_arr, Hs. now rewrite Hadm.
+  - rewrite dec_var_struct. cbv zeta. unfold skip_to. now rewrite Hs, Hadm.
+Qed.
+
+(* struct level: the members before it encoded normally, then a field under the member's tag with an
+   inadmissible wire type and anything after it: rejected *)
+Theorem inadmissible_rejected e k n sid fds1 fd fds2 vs1 ty r :
+  wf_schema k e -> (S k <= 64)%nat -> fields_of e sid = fds1 ++ fd :: fds2 ->
+  Forall2 (fun fd x => has_type e (fty fd) x) fds1 vs1 ->
+  ty < 16 -> (ty =? tSE) = false -> adm (fty fd) ty = false ->
+  tfin n e (TStruct sid) = true -> (tneed n e (TStruct sid) + k <= 64)%nat ->
+  decode e sid (enc_fields e vs1 fds1 ++ head ty (ftag fd) ++ r) = DErr.
+Proof.
+  intros Hwf Hk Hsid H1 Hty Hse Hadm Hfin Hn.
+  assert (H256 : ftag fd < 256).
+  { pose proof (wf_asc k e Hwf sid) as Hasc. rewrite Hsid in Hasc. destruct fds1 as [|x a]; cbn [app schema_ascending] in Hasc; [tauto|].
+    destruct Hasc as [_ Hasc]. apply ascending_app_mid in Hasc. tauto. }
+  pose proof (wf_asc k e Hwf sid) as Hasc. rewrite Hsid in Hasc.
+  apply (struct_member_error e k n sid fds1 fd fds2); try assumption.
+  - intros f' prior Hf'. destruct f' as [|f'']; [lia|].
+    pose proof (inadmissible_member e f'' (ftag fd) (freq fd) (fty fd) prior None [] ty r (junk_nil None (ftag fd)) Hty H256 Hse Hadm) as H9.
+    cbn [ser_fields app] in H9. apply H9. lia.
+  - intros fd1 Hin. right. exists ty, (ftag fd), r. repeat split; try assumption. right.
+    destruct fds1 as [|x a]; [contradiction|]. cbn [app schema_ascending] in Hasc. destruct Hasc as [_ Hasc].
+    destruct Hin as [->|Hin].
+    + apply (ascending_all_gt _ _ Hasc). apply in_or_app. right. now left.
+    + now apply (ascending_before fd fds2 fd1 a _ Hasc).
+Qed.
+Print Assumptions inadmissible_member.
+Print Assumptions inadmissible_rejected.
